@@ -28,12 +28,12 @@ Definition hist_run (fuel : nat) (te : tenv) (ops : list hop) : hstate := fold_l
 Lemma hist_convert_reflects : forall f te tname id tn fs h sh d loc h' sh',
     find_reg te tn = Some d -> s_name d = tname ->
     hist_convert (S f) te true tname id (SRec id tn fs) h sh = Ok (GPtr (Some loc), (h', sh')) ->
-    paths_independent (res_paths (resolve f te tname) fs) = true ->
+    paths_independent (res_paths (resolve_key f te tname) fs) = true ->
     shadow_find id sh' = Some loc /\
     exists obj, nth_error h' loc = Some obj /\
       forall k v, In (k, v) fs ->
         exists path sty curv st1 nv st2,
-          resolve f te tname k = Some path /\ type_at te (TStruct tname) path = Some sty /\
+          resolve_key f te tname k = Some path /\ type_at te (TStruct tname) path = Some sty /\
           conv f te false sty curv v st1 = Ok (nv, st2) /\ get_path obj path = Some nv.
 Proof.
   intros f te tname id tn fs h sh d loc h' sh' Hr Hn H Hind. subst tname.
@@ -42,7 +42,7 @@ Proof.
              conv (S f) te true (TStruct (s_name d)) cur (SRec id tn fs) (mkSt h []) = Ok (b, st1) ->
              forall k v, In (k, v) fs ->
                exists path sty curv st2 nv st3,
-                 resolve f te (s_name d) k = Some path /\ type_at te (TStruct (s_name d)) path = Some sty /\
+                 resolve_key f te (s_name d) k = Some path /\ type_at te (TStruct (s_name d)) path = Some sty /\
                  conv f te false sty curv v st2 = Ok (nv, st3) /\ get_path b path = Some nv).
   { intros cur b st1 Ec.
     assert (Hmiss : cache_find id (mkSt h []) = None) by reflexivity.
@@ -74,12 +74,12 @@ Theorem hist_reflects_current : forall f te ops tname id tn fs d loc h' sh',
     find_reg te tn = Some d -> s_name d = tname ->
     hist_convert (S f) te true tname id (SRec id tn fs) (fst (hist_run (S f) te ops)) (snd (hist_run (S f) te ops))
       = Ok (GPtr (Some loc), (h', sh')) ->
-    paths_independent (res_paths (resolve f te tname) fs) = true ->
+    paths_independent (res_paths (resolve_key f te tname) fs) = true ->
     shadow_find id sh' = Some loc /\
     exists obj, nth_error h' loc = Some obj /\
       forall k v, In (k, v) fs ->
         exists path sty curv st1 nv st2,
-          resolve f te tname k = Some path /\ type_at te (TStruct tname) path = Some sty /\
+          resolve_key f te tname k = Some path /\ type_at te (TStruct tname) path = Some sty /\
           conv f te false sty curv v st1 = Ok (nv, st2) /\ get_path obj path = Some nv.
 Proof. intros. eapply hist_convert_reflects; eassumption. Qed.
 
